@@ -396,7 +396,48 @@ class Installed:
         for m in self._mods:
             m.open = self.disk.open
         self._install_os()
+        self._install_warnings()
         return self.disk
+
+    # warnings.catch_warnings saves and restores process-global state (the filter list and the display hook): entering
+    # and leaving it are pre-emption points of the scheduler, like the I/O seams (the state is shared by all threads)
+    def _install_warnings(self):
+        import warnings
+
+        disk = self.disk
+        cw = warnings.catch_warnings
+        self._cw = (cw.__enter__, cw.__exit__)
+        real_enter, real_exit = self._cw
+
+        def __enter__(self_):
+            r = real_enter(self_)
+            disk.nwarn_ctx = getattr(disk, "nwarn_ctx", 0) + 1
+            disk.yield_point("global:warnings.enter")
+            return r
+
+        def __exit__(self_, *exc):
+            r = real_exit(self_, *exc)
+            disk.yield_point("global:warnings.exit")
+            return r
+
+        cw.__enter__, cw.__exit__ = __enter__, __exit__
+        # delivering a warning reads that state (the C implementation of warnings.warn looks this function up by name)
+        self._showmsg = warnings._showwarnmsg
+        real_show = self._showmsg
+
+        def _showwarnmsg(msg):
+            r = real_show(msg)
+            disk.nwarn_shown = getattr(disk, "nwarn_shown", 0) + 1
+            disk.yield_point("global:warnings.show")
+            return r
+
+        warnings._showwarnmsg = _showwarnmsg
+
+    def _uninstall_warnings(self):
+        import warnings
+
+        warnings.catch_warnings.__enter__, warnings.catch_warnings.__exit__ = self._cw
+        warnings._showwarnmsg = self._showmsg
 
     # iodata itself never deletes, renames or probes files, but a change to it might ("clean up the
     # incomplete output"): route those calls to the simulated disk for simulated paths.
@@ -469,6 +510,7 @@ class Installed:
 
     def __exit__(self, *exc):
         self._uninstall_os()
+        self._uninstall_warnings()
         for m, old in zip(self._mods, self._saved):
             if old is _MISSING:
                 try:
@@ -481,3 +523,88 @@ class Installed:
 
 
 _MISSING = object()
+
+
+# ---------------------------------------------------------------------------------------------
+# allocator seam: the content of uninitialised memory
+
+
+POISON_FILLS = {
+    # variant -> (float, int, str-char, bool)
+    0: (0.0, 0, "", False),  # what a fresh process usually sees (zero pages)
+    1: (float("nan"), -(2 ** 62) + 12345, "Z", True),
+    2: (-7.25e77, 77777, "q", True),
+    3: (1.0, 1, "1", False),
+}
+
+
+class MemPoison:
+    """np.empty / np.empty_like called from iodata code return memory with a chosen content.
+
+    Uninitialised memory holds whatever the process did before: a result that depends on it depends on the
+    call history.  The simulator owns that content: the same run under two fill variants must give the same
+    result.  Only calls whose caller is a file of the repository's iodata package are affected (numpy and scipy
+    bind their own `empty` at import time and are not the subject)."""
+
+    def __init__(self, variant, prefix=None):
+        self.variant = variant
+        self.prefix = prefix
+        self.hits = 0
+
+    def _fill(self, arr):
+        f, i, s, b = POISON_FILLS[self.variant]
+        k = arr.dtype.kind
+        if arr.size == 0:
+            return arr
+        if k == "f":
+            arr[...] = f
+        elif k == "c":
+            arr[...] = complex(f, f)
+        elif k in "iu":
+            arr[...] = i if k == "i" else abs(i) % 251
+        elif k == "U":
+            arr[...] = s * max(1, arr.dtype.itemsize // 4) if s else ""
+        elif k == "S":
+            arr[...] = (s * arr.dtype.itemsize).encode()
+        elif k == "b":
+            arr[...] = b
+        return arr
+
+    def __enter__(self):
+        import sys
+
+        import numpy
+
+        if self.variant is None:
+            return self
+        if self.prefix is None:
+            from . import common
+
+            self.prefix = os.path.join(os.path.realpath(common.REPO), "iodata") + os.sep
+        self._real = (numpy.empty, numpy.empty_like)
+        real_empty, real_like = self._real
+        me = self
+
+        def empty(*a, **kw):
+            arr = real_empty(*a, **kw)
+            if sys._getframe(1).f_code.co_filename.startswith(me.prefix):
+                me.hits += 1
+                me._fill(arr)
+            return arr
+
+        def empty_like(*a, **kw):
+            arr = real_like(*a, **kw)
+            if sys._getframe(1).f_code.co_filename.startswith(me.prefix):
+                me.hits += 1
+                me._fill(arr)
+            return arr
+
+        numpy.empty, numpy.empty_like = empty, empty_like
+        return self
+
+    def __exit__(self, *exc):
+        import numpy
+
+        if self.variant is not None:
+            numpy.empty, numpy.empty_like = self._real
+        return False
